@@ -70,4 +70,70 @@ Section Safe.
   Lemma safe_faa_sync {R} t (k : V -> prog R) l Q :
     (forall v, safe t (k v) l Q) -> safe t (Act (a_faa_sync t) k) l Q.
   Proof. intros H. apply safe_silent; auto using silent_faa_sync. Qed.
+
+  (** ** spin_lock::lock() *)
+  Definition Qlock (idx : nat) (ph : phase) : option (list nat * nat) -> view -> Prop :=
+    fun r vw => match r with None => True | Some ln => vw = mkV false idx (Some ln) ph end.
+
+  Lemma safe_lock_loops fuel : forall t idx ph,
+    safe t (lock_outer fuel) (mkV false idx None ph) (Qlock idx ph) /\
+    safe t (lock_inner fuel) (mkV false idx None ph) (Qlock idx ph).
+  Proof.
+    induction fuel as [|f IH]; intros t idx ph; split; cbn [lock_outer lock_inner]; try exact I.
+    - cbn [Conc.safe]. intros g a tr HI Hv. unfold aview in Hv. cbn [a_lock_xchg fst snd]. rewrite tag1.
+      destruct (lockw g) eqn:Hw.
+      + exists (upd a t (a t)). split; [|split; [apply frame_upd|]].
+        * apply (Inv_silent qf g); auto.
+          repeat split; auto.
+        * rewrite aview_upd_same, Hv. apply IH.
+      + exists (upd a t (mkV false (v_idx (a t)) (Some (slist g, nalloc g)) (v_ph (a t)))). split; [|split; [apply frame_upd|]].
+        * apply Inv_lock_step; auto. discriminate.
+        * rewrite aview_upd_same, Hv. cbn. reflexivity.
+    - apply safe_silent; auto using silent_lock_ld.
+      intros v. destruct v as [| | | | |[|] ? ?]; apply IH.
+  Qed.
+
+  (** ** enqueue *)
+  Lemma PH_enq_sg g tr t idx x lb sg vis sg' :
+    PH g tr t idx (PEnq x lb sg vis false) -> (forall s, sg' = Some s -> s < nalloc g) ->
+    PH g tr t idx (PEnq x lb sg' [] false).
+  Proof.
+    cbn. intros (P1 & P2 & P3 & P4 & P5 & P6 & P7) H. repeat split; auto.
+  Qed.
+
+  Ltac use_view K Hv := rewrite ?Hv in K; cbn [v_hd v_idx v_lock v_ph set_hp0] in K.
+
+  (** a load of m_pTail: the enqueuer now knows a segment that exists *)
+  Lemma safe_ld_tail {R} t hd idx lk x lb sg vis (k : V -> prog R) Q :
+    (forall p, safe t (k (VS p)) (mkV hd idx lk (PEnq x lb p [] false)) Q) ->
+    safe t (Act a_ld_tail k) (mkV hd idx lk (PEnq x lb sg vis false)) Q.
+  Proof.
+    intros Hk. cbn [Conc.safe]. intros g a tr HI Hv. unfold aview in Hv. cbn [a_ld_tail fst snd]. rewrite tag1.
+    exists (upd a t (mkV hd idx lk (PEnq x lb (tailp g) [] false))). split; [|split; [apply frame_upd|]].
+    - pose proof (Inv_view qf g a tr t g KLd obj_tail true (PEnq x lb (tailp g) [] false) HI) as K.
+      use_view K Hv. apply K; clear K.
+      + repeat split; auto.
+      + auto.
+      + discriminate.
+      + pose proof (PH_own_acc qf g a tr t g KLd obj_tail true HI) as P. use_view P Hv.
+        eapply PH_enq_sg; [apply P; [repeat split; auto|discriminate]|].
+        apply (si_tail _ _ (inv_si _ _ _ _ HI)).
+      + apply taker_iff_ph; [discriminate|cbn; discriminate].
+    - rewrite aview_upd_same. apply Hk.
+  Qed.
+
+  Definition Qprot_enq hd idx lk x lb : option (option nat) -> view -> Prop :=
+    fun r vw => match r with None => True | Some p => vw = mkV hd idx lk (PEnq x lb p [] false) end.
+
+  Lemma safe_protect_tail_loop fuel t hd idx lk x lb : forall pcur sg,
+    safe t (protect_loop fuel a_ld_tail t 0 pcur) (mkV hd idx lk (PEnq x lb sg [] false)) (Qprot_enq hd idx lk x lb).
+  Proof.
+    induction fuel as [|f IH]; intros pcur sg; cbn [protect_loop]; [exact I|].
+    apply safe_st_hp_free; [exact I|]. intros _. apply safe_faa_sync. intros _.
+    apply safe_ld_tail. intros p. cbn [seg_of]. destruct (optnat_eqb pcur p); [reflexivity|apply IH].
+  Qed.
+
+  Lemma safe_protect_tail fuel t hd idx lk x lb sg vis :
+    safe t (protect fuel a_ld_tail t 0) (mkV hd idx lk (PEnq x lb sg vis false)) (Qprot_enq hd idx lk x lb).
+  Proof. unfold protect. apply safe_ld_tail. intros p. apply safe_protect_tail_loop. Qed.
 End Safe.
